@@ -13,6 +13,8 @@ Case lines
        op 3 whole-value write at path: args = value tree (TS: present v | TSB/TSL: present [children if present])
        op 4 TSD at path: create key args[0] op 5 TSD at path: erase key args[0]
        a path component below a TSD is the key (created on the way when absent)
+       op 6 set leaf value args[0] through the ELEMENT'S OWN view: a TSD on the way is only looked up
+            (TSDDataView::at, no dictionary-level operation); an absent key makes it a no-op (29 t 6 4)
 Observation lines (per cycle, in this order)
   23 t op flag               result of a scripted write (first-for-time / did-invalidate / changed)
   29 t op code               the write threw (2 = "duplicate modification")
@@ -22,6 +24,8 @@ Observation lines (per cycle, in this order)
        count (producer lines only): observers.notify calls seen so far by a counting observer on that node (-1 below a TSD)
        delta: TS the delta value; TSB/TSL bit mask of the children in the delta; TSD -1; -2 sampled whole value
   24 who t plen path... keys...   live keys of a TSD node (sorted)
+  22 who t plen path... keys...   the keys the TSD itself reports modified in this cycle (modified_keys())
+  31 who t plen path... flag keys...   flag 1: the TSD's own per-tick delta is readable; keys of its "modified" map
 """
 import random
 
@@ -153,6 +157,32 @@ def rand_path(rng, s, want, dict_free_prefix=False):
     return None
 
 
+def live_leaf_path(rng, s, livekeys):
+    """a leaf path whose dictionary levels all use keys believed live; None when there is none"""
+    for _ in range(30):
+        p, cur = [], s
+        ok = True
+        while kind(cur) != 0:
+            if kind(cur) == 3:
+                cands = [lk[-1] for lk in livekeys if lk[:-1] == tuple(p)]
+                if not cands:
+                    ok = False
+                    break
+                p.append(rng.choice(sorted(cands)))
+                cur = cur[1]
+            else:
+                ks = kids(cur)
+                if not ks:
+                    ok = False
+                    break
+                i = rng.randrange(len(ks))
+                p.append(i)
+                cur = ks[i]
+        if ok and any(True for n in range(len(p)) if kind(shape_at(s, p[:n])) == 3):
+            return p
+    return None
+
+
 def gen_val(rng, s, p_present=0.7, top=True):
     if s == 0:
         return [1 if top or rng.random() < p_present else 0, rng.randint(-9, 99)]
@@ -202,15 +232,24 @@ def gen(rng, tier, prop):
     dicty = has_dict(shape)
     erased = set()
     pending = {}
+    livekeys = set()     # paths (ending in a key) of dictionary elements believed live
     hot = rng.random()
     while t < end:
         if rng.random() < 0.3 + 0.5 * hot:
-            for _ in range(rng.choice([1, 1, 1, 2, 2, 3, 4])):
+            nops = rng.choice([1, 1, 1, 2, 2, 3, 4])
+            for opi in range(nops):
                 r = rng.random()
                 if dicty and r >= 0.75:
                     r = 0.9                    # shapes holding a dictionary: a quarter of the operations are key operations
                 line = None
-                if r < 0.5:
+                direct = dicty and livekeys and (rng.random() < (0.45 if opi == 0 else 0.2))
+                if direct:
+                    # write an element through its own view (no dictionary-level operation), preferably as the first
+                    # operation of the cycle: the dictionary must open a new delta window on the child's notification
+                    p = live_leaf_path(rng, shape, livekeys)
+                    if p is not None:
+                        line = [3, t, 6, len(p)] + p + [rng.randint(-9, 99)]
+                elif r < 0.5:
                     p = rand_path(rng, shape, "leaf")
                     if p is not None:
                         line = [3, t, 1, len(p)] + p + [rng.randint(-9, 99)]
@@ -256,8 +295,19 @@ def gen(rng, tier, prop):
                     if line[2] == 5 and not hit:
                         erased.add((t, tuple(pth), line[-1]))
                         pending[tuple(pth)] = t
+                        for lk in [lk for lk in livekeys if lk[:len(pth) + 1] == tuple(pth) + (line[-1],)]:
+                            livekeys.discard(lk)
                     if not hit:
                         case.append(line)
+                        if line[2] in (1, 2, 3, 4):
+                            cur = shape
+                            full = pth + ([line[-1]] if line[2] == 4 else [])
+                            for n, i in enumerate(full):
+                                if kind(cur) == 3:
+                                    livekeys.add(tuple(full[:n + 1]))
+                                    cur = cur[1]
+                                else:
+                                    cur = kids(cur)[i]
         t += rng.choice([1, 1, 1, 2, 3])
     if rng.random() < 0.08:
         # a child write followed by a whole-value write of an enclosing bundle in one cycle (finding F3)
@@ -344,6 +394,7 @@ class Spec:
     def __init__(self, shape):
         self.shape = shape
         self.lmt = {}
+        self.events = set()          # endpoints written or (effectively) invalidated in the current cycle
         self.add_subtree((), shape)
 
     def add_subtree(self, p, s):
@@ -359,6 +410,21 @@ class Spec:
     def touch_up(self, p, t):
         for n in range(len(p) + 1):
             self.lmt[p[:n]] = t
+            self.events.add(p[:n])
+
+    def keys_exist(self, p):
+        s = self.shape
+        for n, i in enumerate(p):
+            if kind(s) == 3:
+                if p[:n + 1] not in self.lmt:
+                    return False
+                s = s[1]
+            else:
+                ks = kids(s)
+                if i < 0 or i >= len(ks):
+                    return True
+                s = ks[i]
+        return True
 
     def ensure(self, p, t):
         """create dictionary keys on the way to p (the harness navigates with mutation.at(key))"""
@@ -380,6 +446,10 @@ class Spec:
     def apply(self, t, op, p, args):
         """returns the set of endpoints invalidated (they were valid) by this operation"""
         killed = set()
+        if op == 6:
+            if self.keys_exist(p) and shape_at(self.shape, p) == 0:
+                self.touch_up(p, t)
+            return killed
         s = self.ensure(p, t)
         if s is None:
             return killed
@@ -392,6 +462,7 @@ class Spec:
                     if q[:len(p)] == p:
                         if self.lmt[q] != MIN_DT:
                             killed.add(q)
+                            self.events.add(q)
                         self.lmt[q] = MIN_DT
                 if p:
                     self.touch_up(p[:-1], t)   # an invalidated child is a change of every enclosing collection
@@ -425,7 +496,7 @@ def oracle(prop, case, out):
         by_t.setdefault(t, []).append((op, p, args))
     lines_by_t = {}
     for l in out:
-        if l and l[0] in (20, 21, 23, 24, 26, 29):
+        if l and l[0] in (20, 21, 22, 23, 24, 26, 29, 31):
             tt = l[1] if l[0] in (23, 29) else l[2]
             lines_by_t.setdefault(tt, []).append(l)
     if any(l and l[0] in (27, 28) for l in out):
@@ -437,12 +508,13 @@ def oracle(prop, case, out):
     prev_counts = {}
     for t in range(start, end):
         ls = lines_by_t.get(t, [])
-        threw = [l for l in ls if l[0] == 29]
+        threw = [l for l in ls if l[0] == 29 and l[3] != 4]      # code 4: direct write of an absent key, a no-op
         if threw:
             kind_ = "whole_write_throws" if any(l[3] == 2 for l in threw) else "write_throws"
             fails.append((kind_, "scripted write threw at t=%d: %s" % (t, threw[0])))
             return fails     # the state is partially written from here on: stop judging
         killed_now, child_inv_now = set(), set()
+        spec.events = set()
         for (op, p, args) in by_t.get(t, []):
             k = spec.apply(t, op, p, args)
             killed_now |= k
@@ -501,6 +573,28 @@ def oracle(prop, case, out):
         for p in prod:
             if p not in spec.lmt:
                 fails.append(("endpoint_extra", "t=%d producer reports endpoint %s that the write log does not have" % (t, list(p))))
+        # dictionaries: the keys a TSD reports modified in a cycle (modified_keys(), and the "modified" map of its
+        # per-tick delta) are exactly the live keys whose element was written or invalidated in this cycle
+        dict_lines = {}
+        for l in ls:
+            if l[0] in (22, 31):
+                who, pl = l[1], l[3]
+                dict_lines[(l[0], who, tuple(l[4:4 + pl]))] = l[4 + pl:]
+        for (code, who, p), rest in sorted(dict_lines.items()):
+            if p not in spec.lmt:
+                continue
+            exp = sorted(q[-1] for q in spec.lmt if len(q) == len(p) + 1 and q[:len(p)] == p and q in spec.events) \
+                if spec.lmt[p] == t else []
+            side = "producer" if who == 0 else "consumer %d" % who
+            if code == 22 and rest != exp:
+                fails.append(("dict_modified_keys", "t=%d %s ep=%s modified_keys()=%s, elements written/invalidated in this cycle: %s"
+                              % (t, side, list(p), rest, exp)))
+            if code == 31 and rest[0] == 1 and rest[1:] != exp:
+                fails.append(("dict_delta_keys", "t=%d %s ep=%s delta_value().modified has keys %s, elements written/invalidated in this cycle: %s"
+                              % (t, side, list(p), rest[1:], exp)))
+            if code == 31 and who == 0 and rest[0] != int(spec.lmt[p] == t):
+                fails.append(("dict_delta_keys", "t=%d producer ep=%s dictionary delta readable=%d, written in this cycle: %s"
+                              % (t, list(p), rest[0], spec.lmt[p] == t)))
         # (5) every consumer agrees with the producer
         for l in ls:
             if l[0] != 20 or l[1] == 0:
@@ -552,7 +646,7 @@ PROP_KINDS = {
             "parent_without_child", "child_without_parent", "endpoint_missing", "endpoint_extra",
             "consumer_disagrees_valid", "consumer_disagrees_modified", "consumer_disagrees_lmt", "consumer_disagrees_value",
             "consumer_disagrees_delta_readable", "consumer_disagrees_delta",
-            "not_notified", "spurious_notify", "notify_count", "cycle_missing", "write_throws", "harness_error",
+            "not_notified", "spurious_notify", "notify_count", "dict_modified_keys", "dict_delta_keys", "cycle_missing", "write_throws", "harness_error",
             # genuine deviations of the unchanged tree, listed in known_findings.json (docs/notes-track.md F1-F3)
             "consumer_after_invalidate_modified", "consumer_after_invalidate_lmt", "consumer_stale_delta", "whole_write_throws"},
 }
@@ -563,6 +657,7 @@ def stats(case, out):
     st = {"cycles": end - start, "ops": len(ops), "consumers": len(cons),
           "op_set": sum(1 for o in ops if o[1] == 1), "op_invalidate": sum(1 for o in ops if o[1] == 2),
           "op_whole": sum(1 for o in ops if o[1] == 3), "op_dict": sum(1 for o in ops if o[1] in (4, 5)),
+          "op_direct_element_write": sum(1 for o in ops if o[1] == 6),
           "has_dict": int(shape is not None and has_dict(shape)),
           "depth3": int(shape is not None and depth_of(shape) >= 3),
           "late_bound": sum(1 for c in cons if c[0] == 3),
